@@ -16,7 +16,7 @@ BITS = {struct.pack('<d', v): c for c, v in SPECIAL.items()}
 UNEXPLAINED, UNREADABLE = -99, -98
 BASE = datetime.datetime(2020, 1, 1)
 # row label code -> offset of the S2C replays: an irregular index (gaps, a weekend, a month end); the first is 0
-S2C_OFFSETS = [0, 1, 2, 5, 6, 9, 30, 31, 33, 40, 41, 45]
+S2C_OFFSETS = [0, 1, 2, 5, 6, 9, 30, 31, 33, 40, 41, 45, 46, 50, 61, 62]
 COLNAMES = ['a', 'b', 'c', 'd']
 FFILLX = ('ffill_na', 'ffill_0')
 IX_KINDS = ['date', 'int0', 'int', 'float', 'str', 'range']      # how a label code is rendered; range = the default index
@@ -730,10 +730,15 @@ def run(ctx):
         ctx.mc('MC_FillS', 'MC_FillS_thorough.cfg')
         s2c(ctx, canonical(ctx.generate('MC_Fill', 'MC_Fill_gen_big.cfg')), 'big')
         s2c(ctx, canonical(ctx.generate('MC_Fill', 'MC_Fill_gen3.cfg')), 'triples')
-        s2c(ctx, canonical(ctx.mc('MC_FillX', 'MC_FillX_thorough.cfg').emitted), 'corners')
+        fams = by_family(canonical(ctx.mc('MC_FillX', 'MC_FillX_thorough.cfg').emitted))
+        ctx.extra['s2c_enumerated_x'] = {k: len(v) for k, v in fams.items()}
+        core = [c for c in fams['cells'] if len(c['ms']) <= 1]        # every strange float x every method x every frame
+        rest = [c for c in fams['cells'] if len(c['ms']) > 1]
+        pick = lambda cs, n: rng.sample(cs, min(len(cs), n))
+        s2c(ctx, core + pick(rest, 20000) + pick(fams['labels'], 30000) + pick(fams['nona'], 30000), 'corners')
         hists = canonical(ctx.mc('MC_FillS', 'MC_FillS_gen.cfg').emitted)
         ctx.extra['s2c_enumerated_histories'] = len(hists)
-        s2c(ctx, rng.sample(hists, min(len(hists), 40000)), 'histories', session_chunk)
+        s2c(ctx, pick(hists, 20000), 'histories', session_chunk)
         c2s(ctx, 6000, 6000)
     report(ctx)
     ctx.exhaustive = False
